@@ -540,3 +540,177 @@ Proof.
     + destruct (mfl_frame (bfs_subtree g x) (inprog_remove x s2)) as (_ & M & _). rewrite M.
       unfold inprog_remove. sp. rewrite F2, E2. pose proof (length_srem_le x (inprog s)). split; intros; lia.
 Qed.
+
+(** how _execute_record moves the sets *)
+Record er_sets (g : graph) (x : nat) (s s' : st) : Prop := {
+  er_c1 : forall y, In y (completed s) -> In y (completed s');
+  er_c2 : forall y, In y (completed s') -> y = x \/ In y (completed s);
+  er_i1 : forall y, y <> x -> In y (inprog s) -> In y (inprog s');
+  er_i2 : forall y, In y (inprog s') -> y = x \/ In y (inprog s);
+  er_ready : ready s' = ready s;
+  er_deps : deps s' = deps s;
+  er_canceled : canceled s' = canceled s;
+  er_cancelled : cancelled s' = cancelled s;
+  er_f1 : forall y, In y (failed s) -> In y (failed s');
+  er_f2 : forall y, In y (failed s') -> In y (failed s) \/ In y (bfs_subtree g x) }.
+
+Lemma execute_record_sets c g x r s : er_sets g x s (execute_record_gen c g x r s).
+Proof.
+  unfold execute_record_gen.
+  set (s1 := if negb r then emit (EGen x) s else s).
+  assert (S1 : same_sets s s1) by (subst s1; destruct (negb r); repeat split).
+  destruct S1 as (E1 & E2 & E3 & E4 & E5 & E6 & E7).
+  destruct (dry c).
+  - constructor; unfold completed_add, rec_set_status; sp; rewrite ?E1, ?E2, ?E3, ?E4, ?E5, ?E6, ?E7; auto;
+      intros y; rewrite ?In_sadd; tauto.
+  - destruct (submit_attempts g x r (attempts c) s1) as [ok s2] eqn:E.
+    apply submit_attempts_spec in E. destruct E as [[SS _ _ _ _] _ _ _].
+    destruct SS as (F1 & F2 & F3 & F4 & F5 & F6 & F7).
+    destruct ok.
+    + destruct (negb (scheduled (attr g x))).
+      * constructor; unfold inprog_remove, completed_add, rec_set_status, inprog_add; sp;
+          rewrite ?F1, ?F2, ?F3, ?F4, ?F5, ?F6, ?F7, ?E1, ?E2, ?E3, ?E4, ?E5, ?E6, ?E7; auto;
+          intros y; rewrite ?In_srem, ?In_sadd; tauto.
+      * constructor; unfold inprog_add; sp;
+          rewrite ?F1, ?F2, ?F3, ?F4, ?F5, ?F6, ?F7, ?E1, ?E2, ?E3, ?E4, ?E5, ?E6, ?E7; auto;
+          intros y; rewrite ?In_sadd; tauto.
+    + pose proof (mfl_frame (bfs_subtree g x) (inprog_remove x s2)) as M.
+      destruct M as (M1 & M2 & M3 & M4 & M5 & M6 & _).
+      constructor; rewrite ?M1, ?M2, ?M3, ?M4, ?M5, ?M6; try intros y; rewrite ?mfl_failed;
+        unfold inprog_remove; sp;
+        rewrite ?F1, ?F2, ?F3, ?F4, ?F5, ?F6, ?F7, ?E1, ?E2, ?E3, ?E4, ?E5, ?E6, ?E7; auto;
+        rewrite ?In_srem; tauto.
+Qed.
+
+Lemma Inv_inc_restarts g x s : Inv g s -> Inv g (rec_inc_restarts x s).
+Proof.
+  apply Inv_same; [repeat split|]. split; [apply len_recs_inc_restarts|].
+  intros y. rewrite status_inc_restarts. auto.
+Qed.
+
+(** nodes waiting in the two sweep accumulators are not tracked *)
+Definition Pend (g : graph) (s : st) (cl ca : list nat) : Prop :=
+  forall y, In y cl \/ In y ca -> y < length g /\ ~ In y (completed s) /\ ~ In y (inprog s) /\ ~ In y (ready s).
+
+Lemma pend_bfs g s x : WF g -> Inv g s -> In x (inprog s) -> forall y, In y (bfs_subtree g x) ->
+  y < length g /\ ~ In y (completed s) /\ ~ In y (srem x (inprog s)) /\ ~ In y (ready s).
+Proof.
+  intros W I Hx y Hy.
+  assert (Hl : x < length g) by (apply (i_bound g s I); auto).
+  assert (Hc : ~ In x (completed s)) by (intros H; exact (i_dj_ci g s I x H Hx)).
+  split; [eapply bfs_subtree_lt; eauto|]. rewrite In_srem.
+  destruct (Nat.eq_dec y x) as [->|Hne].
+  - split; auto. split; [tauto|]. apply (i_dj_ir g s I); auto.
+  - assert (R : reach g x y) by (apply bfs_subtree_sound; auto).
+    destruct (desc_untracked g s x y W I R (fun E => Hne (eq_sym E)) Hc) as (A & B & C). tauto.
+Qed.
+
+(** facts about a node that is in progress *)
+Lemma inprog_facts g s x : Inv g s -> In x (inprog s) ->
+  x < length g /\ ~ In x (completed s) /\ ~ In x (ready s) /\ ~ In x (failed s) /\ ~ In x (cancelled s) /\
+  incl (parents (attr g x)) (completed s) /\ status (getrec s x) <> INITIALIZED.
+Proof.
+  intros I Hx. splits.
+  - apply (i_bound g s I); auto.
+  - intros H; exact (i_dj_ci g s I x H Hx).
+  - apply (i_dj_ir g s I); auto.
+  - intros H. destruct (i_dj_fc g s I x (or_introl H)) as (_ & A & _). auto.
+  - intros H. destruct (i_dj_fc g s I x (or_intror H)) as (_ & A & _). auto.
+  - apply (i_anc g s I). auto.
+  - apply (i_init g s I). auto.
+Qed.
+
+Definition hr_out (g : graph) (x : nat) (s : st) (r : st * list nat * list nat) : Prop :=
+  let '(s', cl', ca') := r in
+  Inv g s' /\ Pend g s' cl' ca' /\
+  (forall y, In y (inprog s') -> In y (inprog s)) /\
+  (forall y, y <> x -> In y (inprog s) -> In y (inprog s')).
+
+Lemma Inv_handle_report c g s cl ca x o : WF g -> Inv g s -> Pend g s cl ca -> In x (inprog s) -> dry c = false ->
+  hr_out g x s (handle_report_gen c g (s, cl, ca) (x, o)).
+Proof.
+  intros W I P Hx D.
+  destruct (inprog_facts g s x I Hx) as (Hl & Hc & Hr & Hf & Hca & Hp & Hi).
+  assert (Px : forall y, In y cl \/ In y ca -> y <> x).
+  { intros y Hy E. subst y. destruct (P x Hy) as (_ & _ & A & _). auto. }
+  assert (Keep : hr_out g x s (s, cl, ca)) by (unfold hr_out; splits; auto).
+  assert (PB := pend_bfs g s x W I Hx).
+  unfold handle_report_gen.
+  destruct o as [[]|]; cbn [oeqb state_eqb]; try exact Keep.
+  - (* RUNNING *)
+    unfold hr_out. splits; auto. apply Inv_set_status; [discriminate|auto].
+  - (* FINISHED *)
+    unfold hr_out. splits.
+    + apply (Inv_finish g x (rec_set_status x FINISHED s)); auto. apply Inv_set_status; [discriminate|auto].
+    + intros y Hy. destruct (P y Hy) as (A & B & C & E). specialize (Px y Hy).
+      unfold inprog_remove, completed_add, rec_set_status. sp. rewrite In_sadd, In_srem. tauto.
+    + intros y. unfold inprog_remove, completed_add, rec_set_status. sp. rewrite In_srem. tauto.
+    + intros y Hy. unfold inprog_remove, completed_add, rec_set_status. sp. rewrite In_srem. tauto.
+  - (* FAILED *)
+    unfold hr_out. splits.
+    + apply Inv_set_status; [discriminate|]. apply Inv_inprog_remove; auto.
+    + intros y Hy. unfold inprog_remove, rec_set_status. sp. rewrite In_set_union in Hy.
+      destruct Hy as [[Hy|Hy]|Hy]; [apply PB; auto| |]; destruct (P y (ltac:(tauto))) as (A & B & C & E);
+        rewrite In_srem; tauto.
+    + intros y. unfold inprog_remove, rec_set_status. sp. rewrite In_srem. tauto.
+    + intros y Hy. unfold inprog_remove, rec_set_status. sp. rewrite In_srem. tauto.
+  - (* HWFAILURE *)
+    unfold hr_out. splits.
+    + apply Inv_ready_push; unfold inprog_remove; sp; auto; try (rewrite In_srem; tauto).
+      apply Inv_inprog_remove; auto.
+    + intros y Hy. destruct (P y Hy) as (A & B & C & E). specialize (Px y Hy).
+      unfold inprog_remove, ready_push. sp. rewrite In_srem, in_app_iff. cbn. intuition.
+    + intros y. unfold inprog_remove, ready_push. sp. rewrite In_srem. tauto.
+    + intros y Hy. unfold inprog_remove, ready_push. sp. rewrite In_srem. tauto.
+  - (* TIMEDOUT *)
+    destruct (has_restart (attr g x) && negb (canceled s)) eqn:HR.
+    + unfold mark_restart_gen.
+      set (s1 := rec_set_status x TIMEDOUT s).
+      assert (I1 : Inv g s1) by (apply Inv_set_status; [discriminate|auto]).
+      destruct ((rlimit (attr g x) =? 0) || (restarts (getrec s1 x) <? rlimit (attr g x))).
+      * set (s2 := rec_inc_restarts x s1).
+        assert (I2 : Inv g s2) by (apply Inv_inc_restarts; auto).
+        pose proof (execute_record_sets c g x true s2) as ES.
+        unfold hr_out. splits.
+        -- apply Inv_execute_record; auto. rewrite D. discriminate.
+        -- intros y Hy. destruct (P y Hy) as (A & B & C & E). specialize (Px y Hy). splits; auto.
+           ++ intros H. apply (er_c2 _ _ _ _ ES) in H. tauto.
+           ++ intros H. apply (er_i2 _ _ _ _ ES) in H. tauto.
+           ++ rewrite (er_ready _ _ _ _ ES). exact E.
+        -- intros y H. apply (er_i2 _ _ _ _ ES) in H. destruct H as [->|H]; auto.
+        -- intros y Hn H. apply (er_i1 _ _ _ _ ES); auto.
+      * unfold hr_out. splits.
+        -- apply Inv_inprog_remove; auto.
+        -- intros y Hy. unfold inprog_remove, s1, rec_set_status. sp. rewrite In_set_union in Hy.
+           destruct Hy as [[Hy|Hy]|Hy]; [apply PB; auto| |]; destruct (P y (ltac:(tauto))) as (A & B & C & E);
+             rewrite In_srem; tauto.
+        -- intros y. unfold inprog_remove, s1, rec_set_status. sp. rewrite In_srem. tauto.
+        -- intros y Hy. unfold inprog_remove, s1, rec_set_status. sp. rewrite In_srem. tauto.
+    + unfold hr_out. splits.
+      * apply Inv_failed_add; auto.
+        -- apply Inv_inprog_remove. apply Inv_set_status; [discriminate|auto].
+        -- unfold inprog_remove. sp. rewrite In_srem. tauto.
+        -- change (status (getrec (rec_set_status x TIMEDOUT s) x) <> INITIALIZED).
+           rewrite getrec_set_status_eq; [discriminate|]. rewrite (i_len_recs g s I). exact Hl.
+      * intros y Hy. unfold failed_add, inprog_remove, rec_set_status. sp. rewrite In_srem, In_set_union in Hy.
+        destruct Hy as [[_ [Hy|Hy]]|Hy]; [apply PB; auto| |]; destruct (P y (ltac:(tauto))) as (A & B & C & E);
+          rewrite In_srem; tauto.
+      * intros y. unfold failed_add, inprog_remove, rec_set_status. sp. rewrite In_srem. tauto.
+      * intros y Hy. unfold failed_add, inprog_remove, rec_set_status. sp. rewrite In_srem. tauto.
+  - (* UNKNOWN *)
+    unfold hr_out. splits.
+    + apply Inv_inprog_remove. apply Inv_set_status; [discriminate|auto].
+    + intros y Hy. unfold inprog_remove, rec_set_status. sp. rewrite In_set_union in Hy.
+      destruct Hy as [[Hy|Hy]|Hy]; [apply PB; auto| |]; destruct (P y (ltac:(tauto))) as (A & B & C & E);
+        rewrite In_srem; tauto.
+    + intros y. unfold inprog_remove, rec_set_status. sp. rewrite In_srem. tauto.
+    + intros y Hy. unfold inprog_remove, rec_set_status. sp. rewrite In_srem. tauto.
+  - (* CANCELLED *)
+    unfold hr_out. splits.
+    + apply Inv_set_status; [discriminate|]. apply Inv_inprog_remove; auto.
+    + intros y Hy. unfold inprog_remove, rec_set_status. sp. rewrite In_set_union in Hy.
+      destruct Hy as [Hy|[Hy|Hy]]; [|apply PB; auto|]; destruct (P y (ltac:(tauto))) as (A & B & C & E);
+        rewrite In_srem; tauto.
+    + intros y. unfold inprog_remove, rec_set_status. sp. rewrite In_srem. tauto.
+    + intros y Hy. unfold inprog_remove, rec_set_status. sp. rewrite In_srem. tauto.
+Qed.
